@@ -80,11 +80,19 @@ class Report:
         self.trusted_base = []
         self.samples = []
         self.notes = []
+        self._seen = {}
+
+    def _uniq(self, rule, key):
+        n = self._seen.get((rule, key), 0)
+        self._seen[(rule, key)] = n + 1
+        return key if n == 0 else "%s#%d" % (key, n)
 
     def ok(self, rule, key, where, by):
+        key = self._uniq(rule, key)
         self.obligations.append({"rule": rule, "key": key, "where": where, "status": "discharged", "by": by})
 
     def bad(self, rule, key, where, msg, detail=None):
+        key = self._uniq(rule, key)
         self.obligations.append({"rule": rule, "key": key, "where": where, "status": "VIOLATED", "by": msg})
         self.violations.append(Violation(rule, key, where, msg, detail))
 
